@@ -130,8 +130,12 @@ def gen(rnd, big=False):
     if rnd.random() < 0.2:
         extra['define'] = {'POSRES_FC': rnd.choice([1000, '500'])}
     hist = rnd.choice(['none', 'none', 'remove', 'merge']) if not big else 'none'
+    # interaction types whose list exists but is empty when the molecule is written: merely read (the table is a defaultdict)
+    # or emptied by removing every interaction of the type
+    touch = rnd.sample(types + ['dihedrals', 'impropers', 'bonds'], rnd.randint(1, 3)) if rnd.random() < 0.3 else []
+    empty = rnd.sample(sorted({i['type'] for i in inter}), 1) if inter and rnd.random() < 0.2 else []
     return {'atoms': atoms, 'inter': inter, 'nrexcl': rnd.randint(0, 3), 'moltype': rnd.choice(['mol_0', 'Protein_A', 'X']),
-            'extra': extra, 'expect_error': bool(both), 'history': hist, 'hseed': rnd.randrange(10 ** 6),
+            'extra': extra, 'expect_error': bool(both), 'history': hist, 'touch': touch, 'empty': empty, 'hseed': rnd.randrange(10 ** 6),
             'moltype_arg': rnd.random() < 0.5}
 
 
@@ -151,6 +155,11 @@ def build(case):
     elif case['history'] == 'merge':
         other = mol.copy()
         mol.merge_molecule(other)
+    for t in case.get('empty', []):
+        for it in list(mol.interactions.get(t, [])):
+            mol.remove_matching_interaction(t, Interaction(atoms=tuple(it.atoms), parameters=[], meta={}))
+    for t in case.get('touch', []):
+        mol.interactions[t]
     if not case['moltype_arg']:
         mol.meta['moltype'] = case['moltype']
     ex = case['extra']
